@@ -24,6 +24,7 @@ func init() {
 			"R20.5 traitRemove removes an element only under has[i].Name == name (and i < len). R20.7 traitUnion inserts only when the name is absent, at the searched index; appends only at i == len. " +
 			"R20.6 no hand-written exported function under pkg/trait has a body that can only panic. " +
 			"R20.8 index arithmetic that selects a mode value / a fan-speed preset is brought into [0,len) before the slice is indexed (wrap-around by remainder plus len for negatives; clamping for presets). " +
+			"R20.10 a derived operation that writes a freshly built, partially filled message names the paths it changes (WithUpdatePaths/WithUpdateMask) or rebuilds the rest from the old value in its interceptor, because an unmasked write replaces the whole stored message. " +
 			"R20.9 enter/leave totals: the matching total is incremented exactly for its own direction and ResetTotals writes both totals with both update paths; meter: RecordReading stamps end_time and Reset stamps start_time and end_time with one reading of the resource clock and forces the three paths.",
 		Assumptions: []string{"resource.Value/Collection write semantics (C02, C05)", "unitpb.Convert32 arithmetic (C18)"},
 		Run:         runC20,
@@ -41,6 +42,10 @@ func init() {
 			{Name: "leave-counts-enter", File: "pkg/trait/enterleavesensorpb/model.go", Old: "currentVal.LeaveTotal, valueVal.Direction == traits.EnterLeaveEvent_LEAVE)", New: "currentVal.LeaveTotal, valueVal.Direction == traits.EnterLeaveEvent_ENTER)", Expect: "R20.9"},
 			{Name: "reset-forgets-leave-path", File: "pkg/trait/enterleavesensorpb/model.go", Old: "resource.WithUpdatePaths(\"enter_total\", \"leave_total\")", New: "resource.WithUpdatePaths(\"enter_total\")", Expect: "R20.9"},
 			{Name: "meter-reset-keeps-start", File: "pkg/trait/meterpb/model.go", Old: "resource.WithUpdatePaths(\"usage\", \"start_time\", \"end_time\"))", New: "resource.WithUpdatePaths(\"usage\", \"end_time\"))", Expect: "R20.9"},
+			{Name: "union-search-resumes", File: "pkg/trait/parentpb/model.go", Old: "\t\tinsertIndex := sort.Search(len(has), func(i int) bool {\n\t\t\treturn has[i].Name >= ts\n\t\t})\n\t\tswitch {", New: "\t\tinsertIndex := from + sort.Search(len(has)-from, func(i int) bool {\n\t\t\treturn has[from+i].Name >= ts\n\t\t})\n\t\tfrom = insertIndex\n\t\tswitch {", More: []Edit{{File: "pkg/trait/parentpb/model.go", Old: "\t// has should be sorted by Trait.Name\n\tfor _, t := range more {", New: "\tfrom := 0\n\tfor _, t := range more {"}}, Expect: "R20.7"},
+			{Name: "leave-is-not-enter", File: "pkg/trait/enterleavesensorpb/model.go", Old: "currentVal.LeaveTotal, valueVal.Direction == traits.EnterLeaveEvent_LEAVE)", New: "currentVal.LeaveTotal, !(valueVal.Direction == traits.EnterLeaveEvent_ENTER))", Expect: "R20.9"},
+			{Name: "revert-F32-record-without-paths", File: "pkg/trait/meterpb/model.go", Old: "\t}),\n\t\t// only the usage and end time change, the start time of the period is kept\n\t\tresource.WithUpdatePaths(\"usage\", \"end_time\"))", New: "\t}))", Expect: "R20.10"},
+			{Name: "revert-F33-constructor-replaces-initial", File: "pkg/trait/meterpb/model.go", Old: "\t\tproto.Merge(newVal, old)\n", New: "", Expect: "R20.10"},
 			{Name: "remove-guard-spelled-positively", Silent: true, File: "pkg/trait/parentpb/model.go", Old: "\t\tif insertIndex == len(has) || has[insertIndex].Name != ts {\n\t\t\tcontinue // t isn't in has, nothing to do this iteration\n\t\t}\n\t\tcopy(has[insertIndex:], has[insertIndex+1:])\n\t\thas = has[:len(has)-1]", New: "\t\tif insertIndex < len(has) && has[insertIndex].Name == ts {\n\t\t\tcopy(has[insertIndex:], has[insertIndex+1:])\n\t\t\thas = has[:len(has)-1]\n\t\t}"},
 		},
 	})
@@ -56,6 +61,7 @@ func runC20(c *an.Ctx) {
 	r206(c)
 	r208(c)
 	r209(c)
+	r2010(c)
 	c.Min("R20.1", 55)
 	c.Min("R20.2", 100)
 	c.Min("R20.3", 4)
@@ -65,6 +71,7 @@ func runC20(c *an.Ctx) {
 	c.Min("R20.7", 2)
 	c.Min("R20.8", 2)
 	c.Min("R20.9", 5)
+	c.Min("R20.10", 5)
 }
 
 func isResourceOptionSlice(t types.Type) bool {
@@ -576,6 +583,30 @@ func r205and7(c *an.Ctx) {
 		}
 		c.Check(okSearch, "R20.7", name+"|the insertion point is the first element >= name", fn.Pos(), "", "sort.Search's predicate is not `has[i].Name >= name`: equality at the insertion point no longer means presence")
 	}
+	// both searches span the whole (current) list and index it with the probe itself
+	for _, fname := range []string{"traitUnion", "traitRemove"} {
+		fn := c.Prog.Func("pkg/trait/parentpb", "", fname)
+		if fn == nil {
+			continue
+		}
+		for _, call := range an.CallsTo(fn, "sort.Search") {
+			whole := false
+			if ln, ok := call.Common().Args[0].(*ssa.Call); ok && an.CalleeName(ln) == "builtin len" {
+				whole = true
+			}
+			direct := false
+			if f := an.ClosureFn(call.Common().Args[1]); f != nil && len(f.Params) == 1 {
+				direct = true
+				an.Instrs(f, func(in ssa.Instruction) {
+					if ia, ok := in.(*ssa.IndexAddr); ok && ia.Index != ssa.Value(f.Params[0]) {
+						direct = false
+					}
+				})
+			}
+			c.Check(whole && direct, "R20.7", an.FuncName(fn)+"|the binary search spans the whole list", call.Pos(), "",
+				"sort.Search does not run over [0, len(has)) with has[i] probed directly (a window or an offset is used): names outside the window are never compared, so presence is misjudged unless the names to merge arrive sorted - which callers do not guarantee - and the result stops being a sorted duplicate-free set")
+		}
+	}
 }
 
 // r206: bodies that can only panic.
@@ -785,15 +816,32 @@ func r209(c *an.Ctx) {
 				}
 				_, _, f0, ok0 := an.FieldOf(call.Call.Args[0])
 				_, _, f1, ok1 := an.FieldOf(call.Call.Args[1])
-				cmp, ok2 := call.Call.Args[2].(*ssa.BinOp)
-				if !ok0 || !ok1 || !ok2 || cmp.Op != token.EQL {
-					return
-				}
-				k, isC := an.ConstInt(cmp.Y)
-				if !isC {
+				if !ok0 || !ok1 || !strings.HasSuffix(f0, "Total") {
 					return
 				}
 				n++
+				flag := call.Call.Args[2]
+				neg := false
+				for {
+					if u, ok := flag.(*ssa.UnOp); ok && u.Op == token.NOT {
+						flag, neg = u.X, !neg
+						continue
+					}
+					break
+				}
+				cmp, ok2 := flag.(*ssa.BinOp)
+				if !ok2 || (cmp.Op != token.EQL && cmp.Op != token.NEQ) {
+					c.Bad(rule, fmt.Sprintf("%s|%s counts its own direction", an.FuncName(top), f0), call.Pos(), "the increment flag of this total is not a comparison of the event's direction with one direction constant")
+					return
+				}
+				if cmp.Op == token.NEQ {
+					neg = !neg
+				}
+				k, isC := an.ConstInt(cmp.Y)
+				if !isC || neg {
+					c.Bad(rule, fmt.Sprintf("%s|%s counts its own direction", an.FuncName(top), f0), call.Pos(), fmt.Sprintf("the total %s grows whenever the direction is NOT a given one: events with an unspecified direction (occupant updates, corrections of totals) are counted as well", f0))
+					return
+				}
 				want := map[string]int64{"EnterTotal": 1, "LeaveTotal": 2} // EnterLeaveEvent_ENTER = 1, _LEAVE = 2
 				if v, ok := c.Prog.ConstInt("github.com/smart-core-os/sc-api/go/traits", "EnterLeaveEvent_ENTER"); ok {
 					want["EnterTotal"] = v
@@ -901,5 +949,92 @@ func r209(c *an.Ctx) {
 			})
 		}
 		c.Check(ok, rule, an.FuncName(fn)+"|end_time of the new reading is the resource clock's now", fn.Pos(), "", "RecordReading does not stamp the new value's EndTime from the resource clock in its interceptor")
+	}
+}
+
+// r2010: a derived operation that writes a freshly built, partially filled message must name the paths it
+// means to change (or rebuild the rest from the old value in its interceptor): a write without a mask
+// replaces the whole stored message.
+func r2010(c *an.Ctx) {
+	const rule = "R20.10"
+	resPath := an.ModulePath + "/pkg/resource."
+	for _, fn := range c.Prog.FuncsIn("pkg/trait") {
+		if c.Prog.IsGenerated(fn.Pos()) || fn.Parent() != nil {
+			continue
+		}
+		an.Instrs(fn, func(in ssa.Instruction) {
+			call, ok := in.(*ssa.Call)
+			if !ok {
+				return
+			}
+			name := an.CalleeName(call)
+			isWrite := strings.HasSuffix(name, "pkg/resource.Value).Set")
+			msgArg := 1
+			if !isWrite {
+				// a model's own Update… method that forwards to a Value.Set: (m, msg, opts...)
+				cal := call.Call.StaticCallee()
+				if cal == nil || cal.Package() != fn.Package() || cal.Signature.Recv() == nil || !strings.HasPrefix(cal.Name(), "Update") || !cal.Signature.Variadic() {
+					return
+				}
+				fw := false
+				for _, w := range an.CallsIn(cal, func(s string) bool { return strings.HasSuffix(s, "pkg/resource.Value).Set") }) {
+					_ = w
+					fw = true
+				}
+				if !fw {
+					return
+				}
+			}
+			if len(call.Call.Args) <= msgArg {
+				return
+			}
+			fields, alloc := litFields(call.Call.Args[msgArg])
+			if alloc == nil || alloc.Parent() != fn {
+				return
+			}
+			st, ok := alloc.Type().(*types.Pointer).Elem().Underlying().(*types.Struct)
+			if !ok {
+				return
+			}
+			total := 0
+			for i := 0; i < st.NumFields(); i++ {
+				if st.Field(i).Exported() {
+					total++
+				}
+			}
+			if len(fields) >= total {
+				return
+			}
+			cons := fmt.Sprintf("%s|the partially filled %s it writes names its paths", an.FuncName(fn), alloc.Type().(*types.Pointer).Elem().(*types.Named).Obj().Name())
+			c.SawFunc(an.FuncName(fn))
+			// options of this call: look for WithUpdatePaths / WithUpdateMask among the values stored into the variadic slice,
+			// or an interceptor that rebuilds the new value from the old one
+			masked, rebuilds := false, false
+			for _, f := range an.WithClosures(fn) {
+				an.Instrs(f, func(x ssa.Instruction) {
+					cl, ok := x.(*ssa.Call)
+					if !ok {
+						return
+					}
+					switch an.CalleeName(cl) {
+					case resPath + "WithUpdatePaths", resPath + "WithUpdateMask":
+						if f == fn {
+							masked = true
+						}
+					case "google.golang.org/protobuf/proto.Merge":
+						if f != fn && len(f.Params) == 2 {
+							// proto.Merge(new, old)
+							a0, a1 := an.Sources(cl.Call.Args[0]), an.Sources(cl.Call.Args[1])
+							if len(a0) == 1 && len(a1) == 1 && a0[0] == ssa.Value(f.Params[1]) && a1[0] == ssa.Value(f.Params[0]) {
+								rebuilds = true
+							}
+						}
+					}
+				})
+			}
+			// forwards the caller's options only: the caller decides (e.g. a request's update mask)
+			c.Check(masked || rebuilds, rule, cons, call.Pos(), fmt.Sprintf("%d of %d fields set", len(fields), total),
+				fmt.Sprintf("a message with %d of its %d fields set is written without update paths and without rebuilding the rest from the old value: the write replaces the whole stored message, so every field the operation did not mention (e.g. a meter's start_time when a reading is recorded, or a configured initial value) is cleared", len(fields), total))
+		})
 	}
 }
